@@ -111,10 +111,6 @@ func Copy(dst, src Tensor) error {
 // Stack stacks a list of other Tensors. At the moment the operation only supports Tensors of the same type.
 // (*Dense can only be stacked with *Dense... etc)
 func Stack(axis int, t Tensor, others ...Tensor) (retVal Tensor, err error) {
-	if len(others) == 0 {
-		return t, nil
-	}
-
 	switch T := t.(type) {
 	case DenseTensor:
 		var dts []DenseTensor
